@@ -230,6 +230,16 @@ type pResult struct {
 func runPipeScenario(t *testing.T, sc pScenario, table bool) (res pResult) {
 	res.flags = map[string]bool{}
 
+	// the run extends / shrinks the probes' input lists (dynamic inputs): work on a private copy so that the scenario
+	// that ends up in a replay file is the one that was given
+	probes := make([]pProbe, len(sc.Probes))
+	for i, p := range sc.Probes {
+		p.Ins = append([]inSpec(nil), p.Ins...)
+		probes[i] = p
+	}
+
+	sc.Probes = probes
+
 	synctest.Test(t, func(t *testing.T) {
 		ctx, cancel := context.WithCancel(context.Background())
 		defer cancel()
@@ -378,6 +388,8 @@ func runPipeScenario(t *testing.T, sc pScenario, table bool) (res pResult) {
 
 		registered := map[string]bool{}
 
+		inputAdded := map[string]map[string]int64{}
+
 		probeByName := map[string]*pProbe{}
 		for i := range sc.Probes {
 			probeByName[sc.Probes[i].Name] = &sc.Probes[i]
@@ -399,7 +411,18 @@ func runPipeScenario(t *testing.T, sc pScenario, table bool) (res pResult) {
 				for key, v := range latest {
 					typ, id := splitKey(key)
 
-					for _, want := range wantsGo(*probeByName[p.Name], typ, id, v) {
+					// an input added later obliges the runtime only for changes committed after it was added (a controller
+					// that extends its inputs does so inside a reconcile and reads what is there already)
+					eff := *probeByName[p.Name]
+					eff.Ins = nil
+
+					for _, in := range probeByName[p.Name].Ins {
+						if inputAdded[p.Name][in.coq()] < v.seq {
+							eff.Ins = append(eff.Ins, in)
+						}
+					}
+
+					for _, want := range wantsGo(eff, typ, id, v) {
 						if want != "*" && v.seq == 0 {
 							continue
 						}
@@ -485,6 +508,12 @@ func runPipeScenario(t *testing.T, sc pScenario, table bool) (res pResult) {
 				}
 
 				probeByName[w.Probe].Ins = append(probeByName[w.Probe].Ins, *w.In)
+
+				if inputAdded[w.Probe] == nil {
+					inputAdded[w.Probe] = map[string]int64{}
+				}
+
+				inputAdded[w.Probe][w.In.coq()] = book.seq.Add(1)
 				res.flags["dynamic_input"] = true
 			default:
 				if table {
